@@ -152,6 +152,21 @@ def execute (req : Req) (pol : Option Policy) (outcome : Nat → Res) (us : Nat 
     let out := doQuery req pol outcome us fuel ids k cnt cons
     ⟨out, out.attempts, decide (out.final = .last .logical)⟩
 
+/-- the statement's context ends right after the attempt of request `x` — in `SelectedHost.Mark`, between the
+    attempt and the retry decision (`kx = some x`): `do` never looks at the context itself; the policy is consulted
+    as usual, and the attempt it licenses returns `ctx.Err()` from `Conn.exec` before anything is written (counted,
+    observed, no request) and ends the loop. In the model: every request numbered above `x` "answers" with the
+    context's error, and only the attempts numbered up to `x` reached a server. -/
+def executeX (req : Req) (pol : Option Policy) (outcome : Nat → Res) (us : Nat → Nat → Bool) (fuel : Nat)
+    (ids : List Nat) (k cnt cons : Nat) (ctxDone : Bool) (kx : Option Nat) : Run :=
+  match kx with
+  | none => execute req pol outcome us fuel ids k cnt cons ctxDone
+  | some x =>
+    if ctxDone then execute req pol outcome us fuel ids k cnt cons true
+    else
+      let out := doQuery req pol (fun n => if n > x then .logical else outcome n) us fuel ids k cnt cons
+      ⟨out, out.attempts.take (x + 1 - k), decide (out.final = .last .logical) || decide (k + out.attempts.length > x)⟩
+
 /-! ### a scripted environment: hosts whose usability is changed between attempts -/
 
 /-- a host of the scenario with what `do` looks at -/
